@@ -120,7 +120,7 @@ def run(ctx):
   rcases, models = [], []
   for c in c01.relational_cases(ctx, 'c08-models', 4, 20 if q else 400, cls='ortho', seed_off=81):
     m = c['model']
-    qv, qdv = phys.float_state(m, r, qscale=1.2, qdscale=1.0)
+    qv, qdv = phys.float_state(m, r, qscale=1.2, qdscale=1.0, special=0.25)
     rcases.append({'xml': render.render(m), 'q': qv, 'qd': qdv})
     models.append(m)
   known_qd = 0
